@@ -36,7 +36,7 @@ COMPONENTS = {
 }
 PROBES = ["subscribe-duplicate", "unsubscribe-all", "node-replaced", "node-removed", "frame-for-dead-node", "error-frame", "remote-frame",
           "duplicate-frame", "extended-id-sent", "extended-id-received", "extra-sdo-channel", "scanner-reset", "node-re-added",
-          "unsubscribe-all-on-node-id", "removal-refused-after-application-unsubscribed-node-id", "subscriptions-changed-during-dispatch", "listeners-stopped-and-reused"]
+          "unsubscribe-all-on-node-id", "removal-refused-after-application-unsubscribed-node-id", "subscriptions-changed-during-dispatch", "listeners-stopped-and-reused", "coarse-or-missing-receive-timestamps"]
 # probes that mark an injected disturbance; the runner also counts them as fired faults in the evidence
 FAULT_PROBES = {'duplicate-frame': 'duplicate-frame', 'error-frame': 'error-frame', 'frame-for-dead-node': 'frame-for-removed-node', 'remote-frame': 'remote-frame'}
 
@@ -186,7 +186,7 @@ def _receive(ctx, w, can_id, data, kind="data"):
     ts = []
     for _ in range(copies):
         t = w.ch.inject(bus, can_id, data, rtr=(kind == "remote"), ext=ext, delay=50 * US, error=(kind == "error"))
-        ts.append(t / SEC)
+        ts.append(w.ch.stamp(t))
     lss_before = len(net.lss.responses.items)
     ctx.run_for(1 * MS)
     what = "%s frame %X#%s" % (kind, can_id, data.hex())
@@ -400,6 +400,10 @@ def scenario(ctx):
             data = bytes(ctx.choice(256, "sd") for _ in range(ctx.choice(9, "sdl")))
             _check_sent(ctx, w, can_id, data, ctx.choice(4, "rtr") == 0, ctx.choice(4, "per") == 0)
         return
+    # receive timestamps as the driver delivers them: exact, from a coarse clock, or always 0.0 (a driver without timestamps)
+    w.ch.ts_quantum = (0, 0, 0, 1 * MS, -1)[ctx.choice(5, "tsq")]
+    if w.ch.ts_quantum:
+        ctx.probe("coarse-or-missing-receive-timestamps")
     nops = 1 + ctx.choice(400 if ctx.choice(4, "long") == 0 else 40, "nops")
     for i in range(nops):
         with ctx.span("op"):
